@@ -220,10 +220,25 @@ def r6_inline_templates_are_resolved_where_they_are_written(ctx):
     calls = [c for c in P.calls(fn) if P.un(c.func).endswith("syntax_quote")]
     if not calls:
         raise AnalysisError("anchor vanished: _inline_fn_ast no longer builds its template with reader.syntax_quote")
+    tree = ctx.py(ANA)
     for c in calls:
-        ok = any(k.arg == "resolver" and not (isinstance(k.value, ast.Constant) and k.value.value is None) for k in c.keywords) or len(c.args) >= 2
-        ctx.ob("C09.R6", f"{ANA}::_inline_fn_ast::{P.un(c)[:60]} resolves free symbols in the defining namespace", ANA, c.lineno, ok,
-               "" if ok else "the inline template is syntax-quoted without a resolver: its free symbols stay unqualified and are looked up in the caller's namespace",
+        with_resolver = any(k.arg == "resolver" and not (isinstance(k.value, ast.Constant) and k.value.value is None) for k in c.keywords) or len(c.args) >= 2
+        # or: the body's symbols that the analyzer resolved to Vars (VarRef nodes) are rewritten to the
+        # Var's own qualified name before the form is quoted -- a collector over the analysed body
+        # fills a mapping that the rewriting walk of the body form consults
+        pre_qualified = False
+        for hc in P.calls(fn):
+            h = P.find_def(tree, P.un(hc.func))
+            if h is None or h is fn or not hc.args:
+                continue
+            htxt = P.un(h)
+            if "VarRef" in htxt and ".var.ns" in htxt and "sym.symbol(" in htxt:
+                mapping = {P.un(a) for a in hc.args if isinstance(a, ast.Name)}
+                walks = [w for w in P.calls(fn) if P.un(w.func).endswith("_postwalk")]
+                pre_qualified = any(any(isinstance(x, ast.Name) and x.id in mapping for x in ast.walk(w)) for w in walks)
+        ok = with_resolver or pre_qualified
+        ctx.ob("C09.R6", f"{ANA}::_inline_fn_ast::the inline template's free symbols are resolved in the defining namespace", ANA, c.lineno, ok,
+               "" if ok else "the inline template is syntax-quoted without a resolver and without qualifying the Vars the body refers to: its free symbols are looked up in the caller's namespace",
                witness="in a fresh namespace: (def + -) (inc 5) => 4")
 
 
@@ -303,6 +318,8 @@ def r5_every_subpattern_expanded_once_in_place(ctx):
 
 
 SELFTEST = [
+    {"name": "inline template built without the Var references of the body (the repaired defect)", "file": ANA, "expect": "C09.R6",
+     "old": "    __inline_var_refs(inline_arity.body.ret, var_refs)\n", "new": ""},
     {"name": "twin: resolve_alias spells the namespace argument by keyword", "file": RT, "expect": None,
      "old": "            return sym.symbol(which_var.name.name, which_var.ns.name)\n", "new": "            the_var = which_var\n            return sym.symbol(the_var.name.name, ns=the_var.ns.name)\n"},
     {"name": "resolve_alias keeps the written name of a referred Var", "file": RT, "expect": "C09.R4",
